@@ -528,8 +528,10 @@ def run_case(case, mode, tb, ser, codec=False):
         raise RuntimeError("register failed: %r" % (r,))
     if case.get("late_def"):
         warm = b.do(caller.call("com.myapp.proc", 7, x=8))
+        warm_problem = None
         if not warm or warm[0][0] == "ok" or len(invoked) != 1:
-            raise RuntimeError("late_def warm-up: %r invoked=%r" % (warm, invoked))
+            warm_problem = "the first call (class not yet defined) ended with %r, endpoint invoked %d times" % (
+                warm, len(invoked))
         del invoked[:]
         rcls = setup_registries(case, callee, caller, exp_uri)
     box = b.do(caller.call("com.myapp.proc", 7, x=8))
@@ -551,6 +553,8 @@ def run_case(case, mode, tb, ser, codec=False):
         raise RuntimeError("endpoint invoked %d times" % len(invoked))
 
     bad = []
+    if case.get("late_def") and warm_problem:
+        bad.append(("lost", warm_problem))
     obs = {"wire": None, "outcome": None, "escapes": [repr(e)[:200] for _, e in b.escapes]}
     # ---- (1) ERROR on the callee's wire ---------------------------------------
     wires = b.wire_of("callee", M.Error)
